@@ -79,6 +79,9 @@ def upload_scenarios(draw):
           "bursts": draw(st.sampled_from([[], [], [], [1], [0, 1], [2, 0, 1]]))}
     if draw(st.integers(0, 3)) == 0:
         sc["script"].append({"when": {"event": "data", "n": draw(st.integers(0, 3))}, "do": [{"settings": {"4": draw(st.sampled_from([0, 1, 1000, W, 200000]))}}]})
+    if draw(st.integers(0, 2)) == 0:
+        # SETTINGS_MAX_FRAME_SIZE changes in the middle of an upload (raised, or lowered again after a big initial value)
+        sc["script"].append({"when": {"event": "data", "n": draw(st.integers(0, 4))}, "do": [{"settings": {"5": draw(st.sampled_from([16384, 16384, 16385, 30000, 65536, 1 << 20]))}}]})
     return sc
 
 
@@ -201,8 +204,10 @@ def execute_uploads(sc) -> Outcome:
     n_wu = sum(1 for h2 in peers for l in h2.log if l[0] == "send" and l[1].startswith("WINDOW_UPDATE"))
     tags = [sc["kind"], "wu-" + sc["wu_mode"], f"uploads={len(sc['uploads'])}", f"iws={sc['settings'].get('4')}", f"mfs={sc['settings'].get('5')}",
             "runtime-" + (sc.get("runtime") or "asyncio")]
-    if sc.get("script"):
+    if any("4" in a.get("settings", {}) for item in sc.get("script", []) for a in item["do"]):
         tags.append("window-setting-changed-mid-upload")
+    if any("5" in a.get("settings", {}) for item in sc.get("script", []) for a in item["do"]):
+        tags.append("frame-size-setting-changed-mid-upload")
     if big:
         tags.append("upload>window")
     if total > W and len(sc["uploads"]) >= 2:
